@@ -114,6 +114,34 @@ def c11(tier):
     return core.finish("C11", tier, "exploration", cov, viols, inc, t0, ASSUME_SAN, min_evals=1000)
 
 
+def c12(tier):
+    t0 = time.time()
+    cfgs = sets.HG_QUICK + (sets.HG_THOROUGH if tier == "thorough" else [])
+    k = 9 if tier == "thorough" else 6
+    total = 1 << k
+    cov, viols, inc = sets.run_engine("C12", tier, cfgs, total, total, extra_args=["--k9"] if k == 9 else [], crash_owners=("C12",))
+    triples = 0
+    cov["rule"] = ("complete enumeration: every subset of a %d-key domain (keys spaced by 2) x every hint position in [begin,end] x every value (below, each key, "
+                   "each gap, above) x {insert(hint,const&), insert(hint,&&), emplace_hint}, per (comparator, underlying vector) configuration; judged against plain "
+                   "insert on an identical copy and against std::set; distinct cell = (configuration, form, empty/non-empty, present/absent, hint relative to "
+                   "lower_bound); evaluations counts monitored library calls" % k)
+    cov["exhaustive"] = not viols and not inc and cov["histories_completed"] == total * len(cfgs)
+    cov["subsets_enumerated"] = cov["histories_completed"]
+    return core.finish("C12", tier, "exploration", cov, viols, inc, t0, ASSUME_SAN, min_evals=1000)
+
+
+def c19(tier):
+    t0 = time.time()
+    cfgs = sets.COST_QUICK + (sets.COST_THOROUGH if tier == "thorough" else [])
+    total = 70 + (1 if tier == "thorough" else 0)
+    cov, viols, inc = sets.run_engine("C19", tier, cfgs, total, total, extra_args=["--big"] if tier == "thorough" else [], crash_owners=("C19",))
+    cov["rule"] = ("comparator-call counter read before/after each call: FlatSets of n = 0..64, 100, 500, 1000, 4096 (+20000 thorough) elements, every key rank "
+                   "(present) and every gap (absent) for n<=64, 200 sampled ranks above, for find/contains/count/lower_bound/upper_bound/equal_range/insert/emplace/"
+                   "erase(key) (bound 2*ceil(log2(n+1))+4) and insertion with every correct hint (bound 6); inline SmallSets N=1..8 x every fill x every key "
+                   "(bound 2N+2). distinct cell = (configuration, size class); evaluations = monitored calls")
+    return core.finish("C19", tier, "exploration", cov, viols, inc, t0, ASSUME_SAN, min_evals=1000)
+
+
 def setup():
     specs = [c.spec() for c in vec.QUICK]
     core.build_many(specs)
@@ -121,4 +149,4 @@ def setup():
     return 0
 
 
-CHECKS = {"C01": c01, "C02": c02, "C05": c05, "C06": c06, "C07": c07, "C03": c03, "C04": c04, "C11": c11}
+CHECKS = {"C01": c01, "C02": c02, "C05": c05, "C06": c06, "C07": c07, "C03": c03, "C04": c04, "C11": c11, "C12": c12, "C19": c19}
